@@ -74,6 +74,6 @@ def run_case(case, cx):
     if r.timeout:
         raise Inconclusive("timeout")
     if cbuild.crashed(r):
-        cx.violation("crash", r.brief())
+        cx.violation("crash:" + cbuild.crash_key(r), r.brief())
     elif r.rc != 0 or r.out.strip():
         cx.violation("self-diff-nonempty", r.brief())
